@@ -355,7 +355,7 @@ theorem keeps_renderNode (c : RCtx) (y : Bytes) : ∀ n : Node, y ∉ writesNode
     refine keepsM_wrapFailAt _ _ (keepsM_bind (keepsM_getVar y _) (fun lv => ?_))
     split
     · exact keepsM_fail y _
-    · exact keepsM_bind (keepsM_setVar y _ _ hx) (fun _ => keepsM_bind (keepsM_write y _) (fun _ => keepsM_pure y _))
+    · exact keepsM_bind (keepsM_setVar y _ _ hx) (fun _ => keepsM_bind (keepsM_writeVerbatim y _) (fun _ => keepsM_pure y _))
   | .brk line, _ => by unfold renderNode; exact keepsM_pure y _
   | .cont line, _ => by unfold renderNode; exact keepsM_pure y _
   | .incl line args, _ => by
@@ -367,7 +367,7 @@ theorem keeps_renderNode (c : RCtx) (y : Bytes) : ∀ n : Node, y ∉ writesNode
       refine keepsM_bind (keepsM_inc y c _ _ _) (fun r => ?_)
       obtain ⟨st, out⟩ := r
       cases st with
-      | done => exact keepsM_bind (keepsM_write y _) (fun _ => keepsM_pure y _)
+      | done => exact keepsM_bind (keepsM_writeVerbatim y _) (fun _ => keepsM_pure y _)
       | brk e => exact keepsM_pure y _
       | cont e => exact keepsM_pure y _
     · exact keepsM_fail y _
